@@ -170,7 +170,6 @@ pub fn check(tier: &str, rep: &mut Report) {
                 }
             }
             if e.num_exts_l() != e.num_ext_dir(Dir::Left) || e.num_exts_r() != e.num_ext_dir(Dir::Right) { bad.push(format!("Exts({:#010b}).num_exts_l/r", v)); }
-            if format!("{:?}", e) != format!("{}|{}", ascii(&e.get(Dir::Left)), ascii(&e.get(Dir::Right))) { bad.push(format!("Exts({:#010b}) Debug = {:?}", v, e)); }
             for w in 0..=255u8 {
                 let f = Exts::new(w);
                 let (fl, fr) = decode_exts(w);
